@@ -73,6 +73,7 @@ REPL = [
   "* C06 missing files: only the first include node with missing files is ever reached, so \"names every missing file\" is\n  asserted per include node;\n"
   "* found by the thorough tiers: an override mapping that addresses one list element twice (`{1: x, -1: y}`, C08), a referenced\n  container replaced by a later stage (dangling references, C10), two premerge operators aimed at one list (C16), a middle stage\n  overwriting the key the focus path runs through (C04b), block scalars inside flow collections (renderer, C01);\n"
   "* the model-free route witness of C07 is keyed by the target a call logs, and a target can stand in two function nodes: merging a\n  function node with another target onto a place whose node is also used through a yaml alias leaves the other place with a node\n  of its own, carrying the new target and no arguments (thorough run 9; the call that ran there had been given nothing unsafe). The\n  witness now speaks only when every node with that target has an unsafe route. (What the merge does to the aliased place is the\n  sharing of aliased function nodes; that the other place was left with a call nobody wrote turned out to be a defect of its own, R62.)\n"
+  "* a document in which two keys spell one list element (`0` and `-2` on a list of two) writes that element twice; C15 had skipped the key\n  permutation for such documents from the start, thorough run 9 met the same thing under repeat-last (`{-2: !merge {a: ~}, 0: [false]}`: the\n  second pass merges the mapping onto the list the first pass left - a MergeError). Skipped and labelled there too;\n"
   "* a slot whose container kind changes between stages (list, then mapping) in the C07 layout - met again in the last thorough run after\n  R44 had made `!del {}` remove a function node: the C07 layout now knows that the key is gone after such a stage;\n"
   "* C17 compared the *types* of path components after the text round trip: the components of a tree loaded from yaml are scalar nodes\n  (int / str subclasses), the kinds are compared now;\n"
   "* the runner itself: shards wrote to pipes that the parent read one after the other, so a shard printing more than a pipe holds\n  (warnings of the property library about an oversized strategy, in the event) stalled until its turn - thorough runs took an hour\n  per property until the output went to files."),
